@@ -68,25 +68,25 @@ def facet_lexical(v, style):
     return str(v)
 
 
-def occurs_attrs(mn, mx):
+def occurs_attrs(mn, mx, explicit=False):
     s = ""
-    if mn != 1:
+    if mn != 1 or explicit:
         s += f' minOccurs="{mn}"'
-    if mx != 1:
+    if mx != 1 or explicit:
         s += f' maxOccurs="{mx}"'
     return s
 
 
 def render_group(f, g, ind):
     x = f.xs_prefix
-    out = [f'{ind}<{x}:{g.kind}{occurs_attrs(g.min, g.max)}>']
+    out = [f'{ind}<{x}:{g.kind}{occurs_attrs(g.min, g.max, getattr(g, "explicit", False))}>']
     for it in g.items:
         if isinstance(it, Group):
             out += render_group(f, it, ind + "  ")
         elif it.kind == "ref":
-            out.append(f'{ind}  <{x}:element ref={quoteattr(qname(f, it.ref))}{occurs_attrs(it.min, it.max)}/>')
+            out.append(f'{ind}  <{x}:element ref={quoteattr(qname(f, it.ref))}{occurs_attrs(it.min, it.max, getattr(it, "explicit", False))}/>')
         else:
-            out.append(f'{ind}  <{x}:element name={quoteattr(it.name.xml)} type={quoteattr(qname(f, it.type))}{occurs_attrs(it.min, it.max)}/>')
+            out.append(f'{ind}  <{x}:element name={quoteattr(it.name.xml)} type={quoteattr(qname(f, it.type))}{occurs_attrs(it.min, it.max, getattr(it, "explicit", False))}/>')
     out.append(f'{ind}</{x}:{g.kind}>')
     return out
 
@@ -103,7 +103,7 @@ def render_content(f, content, base, ind):
         if content.group is not None:
             out += render_group(f, content.group, inner_ind)
         for a in content.attrs:
-            use = ' use="required"' if a.required else ""
+            use = ' use="required"' if a.required else (' use="optional"' if getattr(a, "explicit", False) else "")
             out.append(f'{inner_ind}<{x}:attribute name={quoteattr(a.name.xml)} type={quoteattr(qname(f, a.type))}{use}/>')
     if base is not None:
         out.append(f'{ind}  </{x}:extension>')
